@@ -11,6 +11,7 @@ import (
 	"strings"
 	"time"
 
+	"github.com/mithrandie/csvq/lib/query"
 	"github.com/mithrandie/csvq/lib/value"
 
 	m "verif/harness/internal/c02m"
@@ -332,6 +333,12 @@ func c02Load(dir string, d m.Dialect, enc string) c02Loaded {
 	r := e.Exec("SELECT * FROM " + c02Ident("t"+c02Ext[d.Format]))
 	var l c02Loaded
 	l.Err, l.Panic = r.Err, r.Panic
+	if l.Err != nil && strings.Contains(l.Err.Error(), "is ambiguous") {
+		// two column names that a field reference cannot tell apart (equal, or equal but for letter case or edge blanks):
+		// `SELECT *` is refused; that is csvq's rule for field references, the table itself is loaded. It is read from
+		// the transaction's table cache instead.
+		return c02LoadCached(dir, d, enc)
+	}
 	if l.Err != nil || l.Panic != nil || len(r.Views) != 1 {
 		if l.Err == nil && l.Panic == nil {
 			l.Err = fmt.Errorf("harness: no result view")
@@ -339,6 +346,43 @@ func c02Load(dir string, d m.Dialect, enc string) c02Loaded {
 		return l
 	}
 	v := r.Views[0]
+	l.Header = drv.Header(v)
+	for _, row := range drv.Rows(v) {
+		ns := make([]bool, len(row))
+		ts := make([]string, len(row))
+		for i, c := range row {
+			ns[i], ts[i] = c02Text(c)
+		}
+		l.Null = append(l.Null, ns)
+		l.Text = append(l.Text, ts)
+	}
+	return l
+}
+
+// c02LoadCached reads dir/t<ext> in a fresh transaction and returns the table the loader has put into the cache.
+func c02LoadCached(dir string, d m.Dialect, enc string) c02Loaded {
+	e := c02Env(dir, false)
+	defer e.Close()
+	c02ImportFlags(e, d, enc)
+	r := e.Exec("SELECT COUNT(*) FROM " + c02Ident("t"+c02Ext[d.Format]))
+	var l c02Loaded
+	l.Err, l.Panic = r.Err, r.Panic
+	if l.Err != nil || l.Panic != nil {
+		return l
+	}
+	var v *query.View
+	n := 0
+	e.Tx.CachedViews.Range(func(_, x interface{}) bool {
+		if cv, ok := x.(*query.View); ok {
+			v = cv
+			n++
+		}
+		return true
+	})
+	if n != 1 {
+		l.Err = fmt.Errorf("harness: %d tables in the cache after one file was read", n)
+		return l
+	}
 	l.Header = drv.Header(v)
 	for _, row := range drv.Rows(v) {
 		ns := make([]bool, len(row))
@@ -478,6 +522,10 @@ func c02LoadChecked(res *c02Result, dir string, d m.Dialect, impEnc string, data
 
 func c02RunA(dir string, k c02Case) (res c02Result) {
 	ex := m.Reload(k.T, k.D)
+	if len(k.T.Rows) == 0 && k.D.IsJSON() && c02Repeats(k.T.Header) {
+		// a JSON file names its columns in its records: without a record no member name is written, repeated or not
+		ex = m.Reload(m.Table{Header: c02HeaderN(len(k.T.Header))}, k.D)
+	}
 	switch {
 	case ex.Skip != "":
 		res.Outcome = "skipped: " + ex.Skip
@@ -1473,6 +1521,10 @@ func c02Diagnose(k c02Case, kind, msg string) string {
 			return "csv-cell-with-line-break-written-unquoted"
 		case k.Fam == "A" && csvLike && len(k.T.Header) == 1 && cellHas("NULL", "EMPTY"):
 			return "csv-single-column-empty-record-dropped-on-load"
+		case kind == "unspellable-not-refused" && d.IsJSON() && c02Repeats(k.T.Header):
+			return "json-repeated-member-name-not-refused"
+		case kind == "unspellable-not-refused" && d.Format == "LTSV" && c02Repeats(k.T.Header):
+			return "ltsv-repeated-label-not-refused"
 		case d.Format == "LTSV" && cellHas("COLON"):
 			return "ltsv-colon-in-value-dropped-on-load"
 		case d.Format == "LTSV" && len(k.T.Header) == 1:
@@ -1656,7 +1708,20 @@ func (r *c02Runner) one(k c02Case) {
 	}
 }
 
+// c02Only: a development aid. VERIF_C02_ONLY=<family> runs that family alone; such a run never claims to be exhaustive.
+func c02Only(c *core.Ctx, family string) bool {
+	o := os.Getenv("VERIF_C02_ONLY")
+	if o == "" || o == family {
+		return true
+	}
+	c.Incomplete("VERIF_C02_ONLY=" + o + ": the other families were not run")
+	return false
+}
+
 func c02Run(c *core.Ctx) {
+	if !c02Only(c, "main") {
+		return
+	}
 	if os.Getenv("VERIF_C02_DEBUG") != "" {
 		c02Slow = func(key string) { c.Observe("slow_cases_over_5s", key) }
 	}
@@ -1706,7 +1771,7 @@ func c02Run(c *core.Ctx) {
 }
 
 func c02Replay(c *core.Ctx, payload json.RawMessage) {
-	if c02SecondReplay(c, payload) || c02ExtReplay(c, payload) || c01CommitCancelReplay(c, payload) {
+	if c02SecondReplay(c, payload) || c02ExtReplay(c, payload) || c01CommitCancelReplay(c, payload) || c02RefusalReplay(c, payload) || c02DisplayReplay(c, payload) {
 		return
 	}
 	var k c02Case
